@@ -667,7 +667,8 @@ class Pairing:
                     if anc is f.node:
                         break
                     if isinstance(anc, ast.If):
-                        out.append(src(anc.test))
+                        from ..pattern import T as _T
+                        out.append(_T(anc.test))  # text that compares structurally (locals as metavariables)
                     elif isinstance(anc, (ast.While,)):
                         out.append("while " + src(anc.test))
                     elif isinstance(anc, ast.Try) and any(cur is h or self._contains(h, cur) for h in anc.handlers):
